@@ -747,6 +747,10 @@ pub fn quiesce_with(
                         let gap = (ts as i128 - now as i128).max(0) + 1;
                         budget_ms -= gap;
                         w.advance_ms(gap as i64);
+                        // virtual time passed: a repeating task is not
+                        // busy-waiting for real time
+                        same_streak = 0;
+                        last_name.clear();
                     }
                     _ => return true,
                 }
